@@ -24,6 +24,11 @@ class ColumnReflector(object):
         column_copy = column._copy()
         column_copy.unique = False
         column_copy.onupdate = None
+        # A version row stores exactly what the parent row holds. Defaults
+        # would replace a NULL of the parent (the ORM omits None values from
+        # INSERTs so that defaults fire) and values nulled by NullDeletePlugin.
+        column_copy.default = None
+        column_copy.server_default = None
         if column_copy.autoincrement:
             column_copy.autoincrement = False
         if column_copy.name == self.option('transaction_column_name'):
